@@ -24,6 +24,6 @@ while stack and n < maxleaves:
         leaf['stats']['checks'], leaf['tags'], [(v['check'], v['info']) for v in leaf['violations']][:2],
         (leaf['detail'] or '')[:1500]), flush=True)
     if os.environ.get('SYMX_TRACE_FORKS'):
-        for k, v in sorted(leaf['fork_sites'].items(), key=lambda kv: -kv[1])[:8]:
+        for k, v in sorted(leaf['fork_sites'].items(), key=lambda kv: -kv[1])[:int(os.environ.get("SYMX_TOP","8"))]:
             print('    fork x%d %s' % (v, k))
 print('open prefixes:', len(stack))
